@@ -33,6 +33,23 @@ use swc_ecma_ast::{
 };
 type Res<T> = Result<T, Box<DiagnosticInformation>>;
 
+fn heritage_entity_name(e: &Expr) -> Option<TsEntityName> {
+    match e {
+        Expr::Ident(id) => Some(TsEntityName::Ident(id.clone())),
+        Expr::Member(m) => match &m.prop {
+            MemberProp::Ident(right) => Some(TsEntityName::TsQualifiedName(Box::new(
+                TsQualifiedName {
+                    span: m.span,
+                    left: heritage_entity_name(&m.obj)?,
+                    right: right.clone(),
+                },
+            ))),
+            _ => None,
+        },
+        _ => None,
+    }
+}
+
 fn clean_jsdoc_comment(text: &str) -> Option<String> {
     let text = text.trim_start();
     let text = text.strip_prefix('*').unwrap_or(text);
@@ -1287,10 +1304,11 @@ impl<'a, R: FileManager> FrontendCtx<'a, R> {
                 s: it.span,
             };
 
-            match it.expr.as_ref() {
-                Expr::Ident(id) => {
+            // `extends X` or `extends NS.X` (a namespace import)
+            match heritage_entity_name(it.expr.as_ref()) {
+                Some(name) => {
                     let id_ty = self.extract_type_from_ts_entity_name(
-                        &TsEntityName::Ident(id.clone()),
+                        &name,
                         &it.type_args,
                         file.clone(),
                         Visibility::Local,
@@ -1299,7 +1317,7 @@ impl<'a, R: FileManager> FrontendCtx<'a, R> {
 
                     vs.push(id_ty);
                 }
-                _ => {
+                None => {
                     return self.error(&anchor, DiagnosticInfoMessage::ExtendsShouldBeIdent);
                 }
             }
